@@ -48,7 +48,7 @@ type Plan struct {
 
 func genMut(t *rapid.T) Mut {
 	m := Mut{Kind: rapid.SampledFrom([]string{"setbyte", "setbyte", "bitflip", "truncate", "truncate", "extend", "splice", "nest", "lenfield", "raw", "none"}).Draw(t, "kind")}
-	m.Pos = rapid.IntRange(0, 999).Draw(t, "pos")
+	m.Pos = rapid.OneOf(rapid.IntRange(0, 999), rapid.SampledFrom([]int{0, 1, 2, 5, 9, 10, 15, 20, 30, 40, 50, 60, 998, 999})).Draw(t, "pos")
 	m.Val = rapid.SampledFrom([]int{0, 1, 7, 9, 10, 12, 127, 128, 192, 217, 220, 221, 223, 244, 255}).Draw(t, "val")
 	m.Bit = rapid.IntRange(0, 7).Draw(t, "bit")
 	m.N = rapid.SampledFrom([]int{1, 2, 5, 300, 70000}).Draw(t, "n")
@@ -89,6 +89,14 @@ func apply(b []byte, m Mut, stream bool) []byte {
 		}
 	case "truncate":
 		out = out[:at()]
+	case "cutabs":
+		// absolute cut: N bytes from the start for N <= 12, otherwise 15-N bytes before the end
+		switch {
+		case m.N <= 12 && m.N <= len(out):
+			out = out[:m.N]
+		case m.N > 12 && len(out) >= 16-m.N:
+			out = out[:len(out)-(16-m.N)]
+		}
 	case "extend":
 		n := m.N
 		if n > 70000 {
@@ -461,6 +469,37 @@ func TestSingleByteSweep(t *testing.T) {
 					vfx.CheckCaseAs(t, "TestHostileInputs", pl, r)
 					if r.Err != nil {
 						return
+					}
+				}
+			}
+		}
+	}
+	// stream cut points of the outer layer (label header, frame header): every offset of the first 12
+	// and the last 3 sealed bytes, sender stalled or closed, for every stream message and configuration
+	for gi, g := range corpus {
+		if !g.Stream {
+			continue
+		}
+		for _, label := range []string{"", "lbl"} {
+			for _, mode := range []int{0, 1} {
+				for _, stall := range []bool{true, false} {
+					for off := 0; off <= 15; off++ {
+						cases++
+						if cases%n != k {
+							continue
+						}
+						if !vfx.Thorough() && (off%2 == 1 || (gi%2 == 1 && !stall)) {
+							continue
+						}
+						pl := Plan{Label: label, Mode: mode, G: gi, Layer: "outer", M: Mut{Kind: "cutabs", N: off}, Stall: stall}
+						vfx.Journal("TestHostileInputs", pl)
+						r := runPlan(pl)
+						r.Key = fmt.Sprintf("cut/%d/%s/%d/%v/%d", gi, label, mode, stall, off)
+						r.Labels = append(r.Labels, "sweep-cut")
+						vfx.CheckCaseAs(t, "TestHostileInputs", pl, r)
+						if r.Err != nil {
+							return
+						}
 					}
 				}
 			}
